@@ -38,6 +38,10 @@ fn main() {
                 job = Some(args.get(i + 1).cloned().unwrap_or_else(|| usage()));
                 i += 2;
             }
+            "--strict" => {
+                engine::STRICT.store(true, std::sync::atomic::Ordering::Relaxed);
+                i += 1;
+            }
             "--verif" => {
                 verif = args.get(i + 1).cloned().unwrap_or_else(|| usage());
                 i += 2;
